@@ -149,7 +149,8 @@ func tablesFamily(ctx *Ctx) error {
 		probes = append(probes, n, strings.ToLower(n), n+"X", "X"+n, n[:len(n)-1], strings.Title(strings.ToLower(n)))
 	}
 	for _, n := range []string{"", "[", "]", "[]", "UNKNOWN", "UNKNOWN[", "UNKNOWN[]", "UNKNOWN[1329]", "unknown[1329]", "UNKNOWN[01329]", "UNKNOWN[65535]", "UNKNOWN[65536]",
-		"UNKNOWN[99999999999999999999]", "UNKNOWN[-1]", "UNKNOWN[+1]", "UNKNOWN[1_0]", "UNKNOWN[0x10]", "UNKNOWN[12", "UNKNOWN12]", "X[12]Y[13]", "[12]", "a[12]b", "UNKNOWN[12]]", "UNKNOWN[[12]", "UNKNOWN[1 2]", "SYSCALL[12]", "\xffSYSCALL", "SYSCALL\x00"} {
+		"UNKNOWN[99999999999999999999]", "UNKNOWN[-1]", "UNKNOWN[+1]", "UNKNOWN[1_0]", "UNKNOWN[0x10]", "UNKNOWN[12", "UNKNOWN12]", "X[12]Y[13]", "[12]", "a[12]b", "UNKNOWN[12]]", "UNKNOWN[[12]", "UNKNOWN[1 2]", "SYSCALL[12]", "\xffSYSCALL", "SYSCALL\x00",
+		"UNKNOWN]1329[", "][", "]1[", "]12[", "SYSCALL] [1300]", "]UNKNOWN[1]", "UNKNOWN]", "]"} {
 		probes = append(probes, n)
 	}
 	for i := 0; i < ctx.N(2000, 20000); i++ {
@@ -167,7 +168,21 @@ func tablesFamily(ctx *Ctx) error {
 		probes = append(probes, string(b))
 	}
 	for _, n := range probes {
-		t, err := auparse.GetAuditMessageType(n)
+		var t auparse.AuditMessageType
+		var err error
+		panicked := ""
+		func() {
+			defer func() {
+				if r := recover(); r != nil {
+					panicked = fmt.Sprint(r)
+				}
+			}()
+			t, err = auparse.GetAuditMessageType(n)
+		}()
+		if panicked != "" {
+			monitor(fmt.Sprintf("C20: GetAuditMessageType(%q) panicked instead of resolving the name or returning an error: %s", n, panicked), TCase{Table: "msgname", Key: n}, "panic")
+			continue
+		}
 		impl := optN(int(t), err == nil)
 		if !isASCII(n) {
 			res.Unmodelled++
